@@ -192,6 +192,16 @@ class Graph:
 # object level
 # ---------------------------------------------------------------------------
 
+# abstract item values -> concrete python values.  "int" contains a falsy item (0).
+SCHEMES = {"str": {"a": "a", "b": "b", "c": "c"}, "int": {"a": 0, "b": 1, "c": 2}}
+INVERSE = {k: {v: a for a, v in m.items()} for k, m in SCHEMES.items()}
+
+
+def split_form(form):
+    base, _, scheme = form.partition("/")
+    return base, scheme or "str"
+
+
 class Suspended(Exception):
     pass
 
@@ -208,7 +218,10 @@ def build_iterable(form, src, passset, is_async):
     """Concretise a spec source sequence (+ loop filter) to a real iterable.
     Returns (iterable, counter) where counter[0] counts items taken from the source
     (None when the form cannot observe that)."""
-    src = list(src)
+    form, scheme = split_form(form)
+    m = SCHEMES[scheme]
+    src = [m[x] for x in src]
+    passset = [m[x] for x in passset]
     cnt = [0]
 
     def cgen():
@@ -258,10 +271,10 @@ def build_iterable(form, src, passset, is_async):
 
 def object_forms(kind, on, is_async):
     if on:
-        return ["fgen", "fagen"] if is_async else ["fgen"]
+        return ["fgen/int", "fagen"] if is_async else ["fgen", "fgen/int"]
     if kind == "sized":
-        return ["list", "tuple", "str"]
-    return ["gen", "agen", "iter"] if is_async else ["gen", "iter"]
+        return ["list", "tuple/int", "str"]
+    return ["gen/int", "agen", "iter"] if is_async else ["gen", "iter/int"]
 
 
 def new_ctx(form, src, passset, is_async):
@@ -271,10 +284,11 @@ def new_ctx(form, src, passset, is_async):
     return cls(it, Undefined), cnt
 
 
-def apply_step(ctx, is_async, act, args):
+def apply_step(ctx, is_async, act, args, scheme="str"):
     """Apply one spec action to a real loop context; returns the observable in the
-    same shape as the label's value."""
+    same shape as the label's value (items mapped back to the spec's values)."""
     from jinja2.runtime import Undefined
+    inv = INVERSE[scheme]
     try:
         if act == "Advance":
             try:
@@ -286,14 +300,14 @@ def apply_step(ctx, is_async, act, args):
                 return "Stop"
             if c2 is not ctx:
                 return ("raise", "loop context not returned")
-            return rv
+            return inv.get(rv, ("unknown item", repr(rv)))
         if act == "Query":
             q = args[0]
             name = q[0]
             if name == "cycle":
                 v = ctx.cycle(*CYC[: q[1]])
             elif name == "changed":
-                v = ctx.changed(q[1])
+                v = ctx.changed(SCHEMES[scheme][q[1]])
             else:
                 v = getattr(ctx, name)
             if inspect.isawaitable(v):
@@ -301,7 +315,7 @@ def apply_step(ctx, is_async, act, args):
                     return ("raise", "awaitable from sync loop context")
                 v = run_coro(v)
             if name in ("previtem", "nextitem"):
-                return () if isinstance(v, Undefined) else (v,)
+                return () if isinstance(v, Undefined) else (inv.get(v, repr(v)),)
             return v
         return None  # EndBody / Finish / Recurse: nothing to do on the object
     except Suspended:
@@ -359,7 +373,7 @@ def replay_components(job):
                             exp = expected_of(act, args)
                             if exp is None:
                                 continue
-                            got = apply_step(ctx, is_async, act, args)
+                            got = apply_step(ctx, is_async, act, args, split_form(form)[1])
                             nsteps += 1
                             if not same(got, exp):
                                 q = args[0][0] if act == "Query" else "next"
@@ -471,25 +485,30 @@ def gen_walk(sub, labels, init, rnd, trees, covered, plain=False):
     return ev
 
 
-def fmt(v):
+def shown(k, scheme):
+    """How a template prints the item the spec calls k (node ids print as themselves)."""
+    return str(SCHEMES[scheme].get(k, k))
+
+
+def fmt(v, scheme):
     if v is True:
         return "True"
     if v is False:
         return "False"
     if isinstance(v, tuple):
-        return v[0] if v else "U"
+        return shown(v[0], scheme) if v else "U"
     return str(v)
 
 
-def expected_text(events):
+def expected_text(events, scheme="str"):
     out = []
     depth = 1
     for act, args in events:
         if act == "Advance":
             if args[0] != "Stop":
-                out.append("<" + args[0])
+                out.append("<" + shown(args[0], scheme))
         elif act == "Query":
-            out.append("|" + fmt(args[1]))
+            out.append("|" + fmt(args[1], scheme))
         elif act == "Recurse":
             out.append("(")
             depth += 1
@@ -503,12 +522,12 @@ def expected_text(events):
     return "".join(out)
 
 
-def qexpr(q, lname="loop"):
+def qexpr(q, lname="loop", scheme="str"):
     name = q[0]
     if name == "cycle":
         return f"{lname}.cycle({', '.join(repr(c) for c in CYC[:q[1]])})"
     if name == "changed":
-        return f"{lname}.changed({q[1]!r})"
+        return f"{lname}.changed({SCHEMES[scheme][q[1]]!r})"
     if name in ("previtem", "nextitem"):
         return f"{lname}.{name}|default('U')"
     return f"{lname}.{name}"
@@ -519,8 +538,9 @@ TREE_WRAPPERS = ["direct", "set", "with", "inner", "call"]
 
 
 class TplBuilder:
-    def __init__(self, rnd, wrappers, uniform):
+    def __init__(self, rnd, wrappers, uniform, scheme):
         self.rnd = rnd
+        self.scheme = scheme
         self.wrappers = wrappers
         self.uniform = rnd.choice(wrappers) if uniform else None
         self.macros = []
@@ -531,7 +551,7 @@ class TplBuilder:
     def piece(self, q):
         w = self.uniform or self.rnd.choice(self.wrappers)
         self.used.add(w)
-        e = qexpr(q)
+        e = qexpr(q, "loop", self.scheme)
         if w == "direct":
             return "|{{ " + e + " }}"
         if w == "set":
@@ -540,7 +560,7 @@ class TplBuilder:
             return "{% with t = " + e + " %}|{{ t }}{% endwith %}"
         if w == "macro":
             n = len(self.macros) + 1
-            self.macros.append("{% macro g" + str(n) + "(l) %}{{ " + qexpr(q, "l") + " }}{% endmacro %}")
+            self.macros.append("{% macro g" + str(n) + "(l) %}{{ " + qexpr(q, "l", self.scheme) + " }}{% endmacro %}")
             return "|{{ g" + str(n) + "(loop) }}"
         if w == "inner":
             return "{% for y in [" + e + "] %}|{{ y }}{% endfor %}"
@@ -571,7 +591,7 @@ def dispatch(cases, var, rnd_quote=repr):
     return "".join(out)
 
 
-def flat_template(events, on, rnd):
+def flat_template(events, on, rnd, scheme):
     """Compile a flat walk into a template.  Returns (source, style)."""
     per_iter = []
     for act, args in events:
@@ -579,7 +599,7 @@ def flat_template(events, on, rnd):
             per_iter.append([])
         elif act == "Query":
             per_iter[-1].append(args[0])
-    tb = TplBuilder(rnd, WRAPPERS, uniform=rnd.random() < 0.5)
+    tb = TplBuilder(rnd, WRAPPERS, rnd.random() < 0.5, scheme)
     disp = rnd.choice(["idx", "ns"])
     cases = [(k, "".join(tb.piece(q) for q in qs)) for k, qs in enumerate(per_iter)]
     fstyle = rnd.choice(["in", "map"]) if on else None
@@ -599,7 +619,7 @@ def flat_template(events, on, rnd):
     return src, {"dispatch": disp, "wrappers": sorted(tb.used), "filter": fstyle}
 
 
-def tree_template(events, on, rnd):
+def tree_template(events, on, rnd, scheme):
     pre, post, rec = {}, {}, []
     stack = []
     for act, args in events:
@@ -617,7 +637,7 @@ def tree_template(events, on, rnd):
         elif act == "Finish":
             if stack:
                 stack.pop()  # the frame marker
-    tb = TplBuilder(rnd, TREE_WRAPPERS, uniform=rnd.random() < 0.5)
+    tb = TplBuilder(rnd, TREE_WRAPPERS, rnd.random() < 0.5, scheme)
     pre_c = [(k, "".join(tb.piece(q) for q in qs)) for k, qs in pre.items()]
     post_c = [(k, "".join(tb.piece(q) for q in qs)) for k, qs in post.items()]
     head = "{% for n in it" + (" if n.v in P" if on else "") + " recursive %}"
@@ -631,14 +651,16 @@ FLAT_FORMS = {False: ["list", "tuple", "str", "iter", "gen"], True: ["list", "tu
 TREE_FORMS = {False: ["list", "tuple", "gen"], True: ["list", "gen", "agen"]}
 
 
-def concretise_flat(form, src):
-    it, _ = build_iterable(form, src, (), False)
+def concretise_flat(form, src, scheme):
+    it, _ = build_iterable(f"{form}/{scheme}", src, (), False)
     return it
 
 
-def concretise_tree(form, forest):
+def concretise_tree(form, forest, scheme):
+    m = SCHEMES[scheme]
+
     def conv(seq):
-        nodes = [Node(n["id"], n["v"], conv(n["ch"])) for n in seq]
+        nodes = [Node(n["id"], m[n["v"]], conv(n["ch"])) for n in seq]
         if form == "list":
             return nodes
         if form == "tuple":
@@ -664,12 +686,13 @@ def get_env(is_async):
     return _ENVS[is_async]
 
 
-def render_case(src, is_async, form, trees, source, pas, rec, via_api=False, tpl=None):
+def render_case(src, is_async, form, trees, source, pas, rec, scheme, via_api=False, tpl=None):
     env = get_env(is_async)
     t = tpl or env.from_string(src)
-    it = concretise_tree(form, source) if trees else concretise_flat(form, source)
-    data = {"it": it, "P": "".join(pas), "M": {v: (v in pas) for v in VALS},
-            "R": list(rec)}
+    m = SCHEMES[scheme]
+    it = concretise_tree(form, source, scheme) if trees else concretise_flat(form, source, scheme)
+    data = {"it": it, "P": "".join(pas) if scheme == "str" else [m[v] for v in pas],
+            "M": {m[v]: (v in pas) for v in VALS}, "R": list(rec)}
     if is_async and not via_api:
         return run_coro(t.render_async(**data))
     return t.render(**data)
@@ -690,10 +713,12 @@ def render_walks(job):
                 continue
             forms = (TREE_FORMS if trees else FLAT_FORMS)[is_async]
             for i, form in enumerate(forms):
+                if form == "str" and c["scheme"] != "str":
+                    continue
                 via_api = (n % 7 == 0)
                 try:
                     got = render_case(c["src"], is_async, form, trees, c["source"], c["pass"], c["style"].get("recurse", ()),
-                                      via_api=via_api, tpl=tpl)
+                                      c["scheme"], via_api=via_api, tpl=tpl)
                 except Suspended:
                     raise
                 except Exception as e:  # noqa
@@ -714,7 +739,7 @@ def first_diff_attr(case):
     for lab in case["walk"]:
         a, args = core.parse_label(lab)
         events.append((a, _py(args)))
-        if len(expected_text(events)) > i:
+        if len(expected_text(events, case["scheme"])) > i:
             if a == "Query":
                 return args[0][0]
             return {"Advance": "next", "Finish": "else", "Recurse": "recurse", "EndBody": "next"}.get(a, a)
@@ -730,14 +755,15 @@ def template_level(ck, g, label, trees, nwalks, rnd):
         for w in range(per):
             ev = gen_walk(sub, g.labels, sid, rnd, trees, covered, plain=(w == 0 and rnd.random() < 0.5))
             events = [g.labels[i] for i in ev]
+            scheme = rnd.choice(["str", "int"])
             if trees:
-                src, style = tree_template(events, info["on"], rnd)
+                src, style = tree_template(events, info["on"], rnd, scheme)
             else:
-                src, style = flat_template(events, info["on"], rnd)
-            cases.append({"kind": "template", "trees": trees, "src": src, "style": style,
+                src, style = flat_template(events, info["on"], rnd, scheme)
+            cases.append({"kind": "template", "trees": trees, "src": src, "style": style, "scheme": scheme,
                           "source": forest_of(info["source"]) if trees else list(info["source"]),
                           "pass": info["pass"], "filtered": info["on"],
-                          "walk": [g.label_text[i] for i in ev], "expected": expected_text(events)})
+                          "walk": [g.label_text[i] for i in ev], "expected": expected_text(events, scheme)})
     nb = NPROC * 2
     jobs = [(cases[i::nb], trees) for i in range(nb) if cases[i::nb]]
     total = 0
@@ -843,9 +869,9 @@ def _run(ck):
     quick = ck.tier == "quick"
     rnd = random.Random(ck.seed)
     # flat sources: every sequence over 3 values up to n3, plus longer ones over 2 values up to n2
-    n3, n2 = (3, 4) if quick else (5, 6)
+    n3, n2 = (3, 4) if quick else (4, 6)
     flat_sources = f"FlatSources({n3}) \\cup UNION {{[1..k -> {{\"a\", \"b\"}}] : k \\in {n3 + 1}..{n2}}}"
-    forests = gen_forests(rnd, 16 if quick else 300, 5 if quick else 6)
+    forests = gen_forests(rnd, 16 if quick else 100, 5 if quick else 6)
     forests_tla = "{" + ",\n ".join(forest_tla(f) for f in forests) + "}"
     tree_keys = "{" + ", ".join(f'"n{i}"' for i in range(1, 8)) + "}"
     tree_maxlen = max(max_width(f) for f in forests)
@@ -873,7 +899,7 @@ def _run(ck):
     if quick:
         ck.require_coverage(results["Flat"], ["Advance", "Query", "EndBody", "Finish"])
 
-    nwalks = {"Flat": 1300, "Tree": 500} if quick else {"Flat": 40000, "Tree": 15000}
+    nwalks = {"Flat": 1300, "Tree": 500} if quick else {"Flat": 20000, "Tree": 8000}
     for name in ("Flat",):
         t0 = time.time()
         g = Graph(results[name].dir / "graph.dot")
@@ -910,7 +936,8 @@ def _run(ck):
         "calling loop(...) on a non-recursive loop",
     ]
     ck.assumptions += [
-        "item values are three one-character strings; tree nodes are objects with id/v/ch attributes",
+        "item values are three abstract symbols concretised as the strings a/b/c or the ints 0/1/2 (0 is falsy); "
+        "tree nodes are objects with id/v/ch attributes",
         "async iterables never really suspend (coroutines are driven with send(None); 1 in 7 renders goes "
         "through Template.render and a real event loop)",
     ]
@@ -926,14 +953,14 @@ def replay(ck, rec):
             exp = expected_of(act, args)
             if exp is None:
                 continue
-            got = apply_step(ctx, c["async"], act, args)
+            got = apply_step(ctx, c["async"], act, args, split_form(c["form"])[1])
             if not same(got, exp):
                 ck.violation(c, f"still differs at {lab}: got {got!r}", rec.get("fingerprint"))
                 return
     else:
         try:
             got = render_case(c["src"], c["async"], c["form"], c["trees"], c["source"], c["pass"],
-                              c["style"].get("recurse", ()), via_api=True)
+                              c["style"].get("recurse", ()), c["scheme"], via_api=True)
         except Exception as e:  # noqa
             got = f"raise {type(e).__name__}: {e}"
         if got != c["expected"]:
